@@ -35,9 +35,10 @@ const (
 	DgWrongHW            // reply for id, other hardware address (v4) / relay-reply wrapper (v6)
 	DgRequestOp          // BOOTREQUEST opcode (v4) / truncated header (v6)
 	DgGarbage            // undecodable
+	DgDup                // byte-for-byte copy of the previous datagram of the script
 )
 
-var dgNames = [...]string{"good", "bad", "wronghw", "reqop", "garbage"}
+var dgNames = [...]string{"good", "bad", "wronghw", "reqop", "garbage", "dup"}
 
 type CallSpec struct {
 	ID       int
@@ -145,6 +146,14 @@ func buildDg(v6 bool, d DgSpec, serial int) []byte {
 		return m.ToBytes()[:3] // truncated header
 	}
 	return m.ToBytes()
+}
+
+// base resolves duplicates: the index of the datagram whose bytes datagram i carries.
+func (s *ClientScenario) base(i int) int {
+	for i > 0 && s.Dgs[i].Kind == DgDup {
+		i--
+	}
+	return i
 }
 
 // qualifies: the datagram decodes, carries id, and (v4) is a BOOTREPLY for the client's MAC.
@@ -291,7 +300,8 @@ func (s *ClientScenario) body(out **clientRun) func() {
 			j := i
 			var group []Datagram
 			for j < len(s.Dgs) && s.Dgs[j].At == s.Dgs[i].At {
-				group = append(group, Datagram{Serial: j, Data: buildDg(s.V6, s.Dgs[j], j), From: serverAddr})
+				b := s.base(j)
+				group = append(group, Datagram{Serial: b, Data: buildDg(s.V6, s.Dgs[b], b), From: serverAddr})
 				j++
 			}
 			conn.DeliverGroupAt(s.Dgs[i].At*Tick, group)
@@ -388,7 +398,8 @@ func (s *ClientScenario) checkClient(run *clientRun, ex *vs.Exec) (violation, ou
 	}
 	calls := make([]callView, len(s.Calls))
 	var closeCall, closeRet *Event
-	deliver := map[int]*Event{}
+	deliver := map[int]*Event{}      // last delivery of each datagram (by serial)
+	deliverAll := map[int][]*Event{} // every delivery (duplicates share a serial)
 	cancelT := map[int]*Event{}
 	for i := range h.Ev {
 		e := &h.Ev[i]
@@ -405,6 +416,7 @@ func (s *ClientScenario) checkClient(run *clientRun, ex *vs.Exec) (violation, ou
 			}
 		case EvDeliver:
 			deliver[e.Dg] = e
+			deliverAll[e.Dg] = append(deliverAll[e.Dg], e)
 		case EvCancel:
 			cancelT[e.Call] = e
 		case EvCloseCall:
@@ -451,11 +463,21 @@ func (s *ClientScenario) checkClient(run *clientRun, ex *vs.Exec) (violation, ou
 		// must-see accepting datagrams, in delivery order
 		firstMust := -1
 		var firstMustEv *Event
+		type inst struct {
+			di int
+			de *Event
+		}
+		var insts []inst
 		for di, d := range s.Dgs {
-			de := deliver[di]
-			if de == nil || !d.accepts(spec) {
+			if d.Kind == DgDup || !d.accepts(spec) {
 				continue
 			}
+			for _, de := range deliverAll[di] {
+				insts = append(insts, inst{di, de})
+			}
+		}
+		for _, in := range insts {
+			di, de := in.di, in.de
 			must := false
 			for k, tx := range cv.tx {
 				dl := tx.T + T*(int64(1)<<uint(k))
@@ -496,7 +518,14 @@ func (s *ClientScenario) checkClient(run *clientRun, ex *vs.Exec) (violation, ou
 					return fail("R1-validity", fmt.Sprintf("call %d returned a datagram that was never injected (serial %d)", ci, j))
 				}
 				d := s.Dgs[j]
-				de := deliver[j]
+				// the delivery this call consumed: the earliest instance inside the call's window
+				var de *Event
+				for _, x := range deliverAll[j] {
+					if cv.inv.T <= x.T && x.Seq < ret.Seq {
+						de = x
+						break
+					}
+				}
 				if !d.qualifies(spec.ID) {
 					return fail("R1-validity", fmt.Sprintf("call %d (id %d) returned datagram %d which is %s for id %d", ci, spec.ID, j, dgNames[d.Kind], d.ID))
 				}
@@ -509,10 +538,10 @@ func (s *ClientScenario) checkClient(run *clientRun, ex *vs.Exec) (violation, ou
 				if de == nil || !(cv.inv.T <= de.T && de.Seq < ret.Seq) {
 					return fail("R1-window", fmt.Sprintf("call %d returned datagram %d which did not arrive while the call was waiting", ci, j))
 				}
-				if prev, dup := returnedBy[j]; dup {
-					return fail("R2-exclusive", fmt.Sprintf("datagram %d returned by calls %d and %d", j, prev, ci))
+				returnedBy[j]++
+				if returnedBy[j] > len(deliverAll[j]) {
+					return fail("R2-exclusive", fmt.Sprintf("datagram %d was delivered %d time(s) but returned by %d calls", j, len(deliverAll[j]), returnedBy[j]))
 				}
-				returnedBy[j] = ci
 				want := expectDecoded(s.V6, buildDg(s.V6, d, j))
 				if run.respAtReturn[ci] != nil && !bytes.Equal(run.respAtReturn[ci], want) {
 					return fail("R1-content", fmt.Sprintf("call %d returned a message that is not the decoding of datagram %d", ci, j))
@@ -525,7 +554,13 @@ func (s *ClientScenario) checkClient(run *clientRun, ex *vs.Exec) (violation, ou
 				}
 			}
 			if has("L") {
-				if de := deliver[j]; de != nil && ret.T != de.T {
+				okT := len(deliverAll[j]) == 0
+				for _, x := range deliverAll[j] {
+					if x.T == ret.T {
+						okT = true
+					}
+				}
+				if de := deliver[j]; !okT {
 					return fail("L3-prompt", fmt.Sprintf("call %d returned datagram %d at t=%d but it arrived at t=%d", ci, j, ret.T, de.T))
 				}
 			}
@@ -614,7 +649,13 @@ func (s *ClientScenario) checkClient(run *clientRun, ex *vs.Exec) (violation, ou
 					return fail("S-count", fmt.Sprintf("call %d failed after %d transmissions, configured tries %d", ci, want, s.Tries))
 				}
 			case ret.Err == "" && ret.Resp >= 0:
-				if de := deliver[ret.Resp]; de != nil {
+				var de *Event
+				for _, x := range deliverAll[ret.Resp] {
+					if cv.inv.T <= x.T && x.Seq < ret.Seq && x.T == ret.T {
+						de = x
+					}
+				}
+				if de != nil {
 					// number of transmissions = index of the try during which the response arrived;
 					// an arrival exactly at a try's deadline instant may be taken by that try or by the next one
 					k := 0
